@@ -388,5 +388,13 @@ def worker(projects):
     return out
 
 
+def impl_worker(projects):
+    return [run_impl(p) for p in projects]
+
+
+def run_impls(projects, nproc=None):
+    return common.parallel_map(impl_worker, projects, nproc)
+
+
 def run_projects(projects, nproc=None):
     return common.parallel_map(worker, projects, nproc)
